@@ -186,6 +186,12 @@ type runnablePipeline struct {
 	// restarted a moment later anyway.
 	recoveryStop     chan struct{}
 	recoveryStopOnce sync.Once
+
+	// forceStopped is set by a forced stop. The tomb keeps only its first
+	// kill reason: when the run had already failed with a transient error at
+	// that moment, the force stop's own (fatal) reason was dropped and the
+	// cleanup goroutine restarted the pipeline the user had just force stopped.
+	forceStopped atomic.Bool
 }
 
 // ConnectorService can fetch and create a connector instance, and report when
@@ -522,6 +528,7 @@ func (s *Service) stopRunnablePipeline(ctx context.Context, rp *runnablePipeline
 		// (see the switch on rp.t.Err() below) classifies it as terminal and error
 		// recovery — once wired in — never auto-restarts a pipeline the user
 		// explicitly stopped.
+		rp.forceStopped.Store(true)
 		rp.t.Kill(cerrors.FatalError(pipeline.ErrForceStop))
 		return nil
 	}
@@ -1619,6 +1626,11 @@ func (s *Service) runPipeline(rp *runnablePipeline) error {
 				return err
 			}
 		default:
+			if rp.forceStopped.Load() && !cerrors.IsFatalError(err) {
+				// the run was force stopped after it had already failed with
+				// this (recoverable) error: the force stop decides
+				err = cerrors.FatalError(cerrors.Errorf("%w (the run had already failed: %w)", pipeline.ErrForceStop, err))
+			}
 			switch {
 			case cerrors.IsFatalError(err):
 				// Invariant 3/7: a fatal terminal error (including a user
@@ -1872,6 +1884,11 @@ func (s *Service) StartWithBackoff(ctx context.Context, rp *runnablePipeline) er
 	case <-rp.recoveryStop:
 		return errUserStopDuringRecovery
 	default:
+	}
+
+	if rp.forceStopped.Load() {
+		// force stopped while waiting to be restarted: do not restart
+		return cerrors.FatalError(pipeline.ErrForceStop)
 	}
 
 	return s.Start(ctx, rp.pipeline.ID)
